@@ -606,6 +606,9 @@ def rectilinear_polygon(rng):
     return pts, swap, steps
 
 
+SCALE_EXPONENTS = [-20, -17, -13, -10, -7, 7, 10, 13, 17, 20]
+
+
 def gen_dc_case(ctx, rng, k, n_real):
     vertex_stream = False
     forced = None
@@ -634,19 +637,27 @@ def gen_dc_case(ctx, rng, k, n_real):
         else:
             kind, coords = "star-rounded", star_polygon(rng, n=rng.choice([4, 5, 6, 8, 10]), decimals=rng.choice([0, 1]))
             vertex_stream = rng.random() < 0.7
+    # coordinate scale: the property (and the exact oracle) is scale-free; an exact power of two keeps every
+    # tie, vertex hit and parallelism of the unscaled polygon (2**-20 ~ 1e-6 ... 2**20 ~ 1e6)
+    sc = 2.0 ** rng.choice(SCALE_EXPONENTS) if rng.random() < 0.4 else 1.0
+    if sc != 1.0:
+        coords = [[x * sc, y * sc] for x, y in coords]
+        obj = None
+        if forced is not None:
+            forced = (forced[0], [v * sc for v in forced[1]] if isinstance(forced[1], list) else forced[1])
     whole = all(float(v).is_integer() for p in coords for v in p)
     dtype = "int" if (whole and obj is None and rng.random() < 0.5) else "float"
     if forced is not None:
         return {"kind": kind, "coords": coords, "swap": forced[0], "steps": forced[1], "vertex_stream": vertex_stream,
-                "steps_type": "list", "coords_dtype": dtype}
+                "steps_type": "list", "coords_dtype": dtype, "scale": sc}
     swap = rng.random() < 0.4
     if kind in ("IFORM", "ISORM", "DirectSampling") and rng.random() < 0.15:
         vertex_stream = True
-    if kind in ("star", "convex", "dup-vertices") and rng.random() < 0.5:
+    if sc == 1.0 and kind in ("star", "convex", "dup-vertices") and rng.random() < 0.5:
         # wide polygons, so that whole-number abscissae fall inside the extent
         coords = [[x * 40.0, y * 40.0] for x, y in coords] if max(abs(v) for p in coords for v in p) < 2 else coords
     steps = gen_steps(rng, coords, swap, vertex_stream)
-    case = {"kind": kind, "coords": coords, "swap": swap, "steps": steps, "vertex_stream": vertex_stream, "coords_dtype": dtype,
+    case = {"kind": kind, "coords": coords, "swap": swap, "steps": steps, "vertex_stream": vertex_stream, "coords_dtype": dtype, "scale": sc,
             "steps_type": rng.choice(["list", "list", "tuple", "ndarray", "range", "iterator"]) if isinstance(steps, list) else "list"}
     if obj is not None:
         case["contour"] = obj
@@ -677,6 +688,14 @@ def polyline(rng, n, box, lattice):
 
 
 def gen_ix_case(rng):
+    c = _gen_ix_case(rng)
+    if rng.random() < 0.4:
+        sc = 2.0 ** rng.choice(SCALE_EXPONENTS)
+        c = dict(c, c1=[[a * sc, b * sc] for a, b in c["c1"]], c2=[[a * sc, b * sc] for a, b in c["c2"]], scale=sc)
+    return c
+
+
+def _gen_ix_case(rng):
     mode = rng.choice(["walk", "walk", "walk", "graphs", "lattice", "polygon-line", "grid-offset", "grid-offset"])
     if mode == "grid-offset":
         # both polylines on one grid, the second shifted by half a cell: exactly parallel segments with
@@ -891,6 +910,11 @@ def run(ctx):
                                 "abscissae_whose_top_hit_is_exactly_a_vertex_and_was_missed_in_binary64": vmiss,
                                 "polyline_pairs_not_in_general_position": ix_delicate}
     ctx.notes["abscissae_through_a_vertex"] = vtx
+    sch = {}
+    for c in dc_cases + ix_cases:
+        k = "1" if c.get("scale", 1.0) == 1.0 else "2^%d" % round(math.log2(c["scale"]))
+        sch[k] = sch.get(k, 0) + 1
+    ctx.notes["coordinate_scales"] = sch
     ctx.notes["sizes"] = {"polygon_vertices_max": max(len(c["coords"]) for c in dc_cases),
                           "polyline_vertices_max": max(max(len(c["c1"]), len(c["c2"])) for c in ix_cases)}
     for c, r in list(zip(dc_cases, dc_res))[:2]:
